@@ -125,35 +125,30 @@ func runC11(c *Ctx) {
 	// ---- R11.3 / R11.4
 	na := 0
 	type install struct {
-		fs   fieldStore
-		rowV ssa.Value
+		fn    *ssa.Function
+		at    ssa.Instruction
+		rowV  ssa.Value
+		table ssa.Value
 	}
 	var ins []install
-	for _, fs := range c.StoresTo(rows) {
-		if fs.Fresh {
-			continue
+	for _, e := range c.installEvents(rows, hdr) {
+		if e.Lifted {
+			continue // checked at the helper's call sites
 		}
-		if _, elems, ok := appendedElems(fs.St.Val); ok && len(elems) == 1 {
-			ins = append(ins, install{fs, elems[0]})
-		}
-	}
-	for _, fs := range c.StoresTo(hdr) {
-		if !fs.Fresh {
-			ins = append(ins, install{fs, fs.St.Val})
-		}
+		ins = append(ins, install{e.Fn, e.At, e.Row, e.Table})
 	}
 	for _, in := range ins {
 		na++
-		fn := in.fs.Fn
+		fn := in.fn
 		var div *ssa.Store
 		for _, es := range c.StoresTo(rowEC) {
 			if es.Fn == fn && es.Base == in.rowV {
-				if f, b := loadedField(es.St.Val); f == tabEC && b == in.fs.Base {
+				if f, b := loadedField(es.St.Val); f == tabEC && b == in.table {
 					div = es.St
 				}
 			}
 		}
-		r.Check("R11.3", FuncName(fn), "installs a row and points its container at the table's", in.fs.St.Pos(), div != nil, "errors raised on this row afterwards stay in a container nobody reads")
+		r.Check("R11.3", FuncName(fn), "installs a row and points its container at the table's", in.at.Pos(), div != nil, "errors raised on this row afterwards stay in a container nobody reads")
 		if div == nil {
 			continue
 		}
@@ -192,11 +187,11 @@ func runC11(c *Ctx) {
 					return
 				}
 				cc := callCommon(x)
-				if fl, b := loadedField(cc.Args[0]); fl == tabEC && b == in.fs.Base && errsCall != nil && cc.Args[1] == errsCall {
+				if fl, b := loadedField(cc.Args[0]); fl == tabEC && b == in.table && errsCall != nil && cc.Args[1] == errsCall {
 					moved = true
 					// only "there are errors" may guard the move
 					base := map[ssa.Value]bool{}
-					for _, cf := range dominatingConds(in.fs.St.Block()) {
+					for _, cf := range dominatingConds(in.at.Block()) {
 						base[cf.Cond] = true
 					}
 					for _, cf := range dominatingConds(x.Block()) {
@@ -214,7 +209,7 @@ func runC11(c *Ctx) {
 			r.Check("R11.4", FuncName(fn), "a pre-built row's errors are read and added to the table before the divert", div.Pos(), read && moved, fmt.Sprintf("Errors() read: %v, AddErrorList(table, those): %v", read, moved))
 		}
 	}
-	r.Floor("R11.3", "functions installing a row", na, 3)
+	r.Floor("R11.3", "functions installing a row", na, 2)
 	// the table's own container is set at construction to a real container
 	for _, fs := range c.StoresTo(tabEC) {
 		call, ok := fs.St.Val.(*ssa.Call)
@@ -390,7 +385,17 @@ func runC11(c *Ctx) {
 			}
 			if f := staticCallee(in); f != nil && f.Name() == "AddError" && f != fn {
 				cc := callCommon(in)
-				if fl, b := loadedField(cc.Args[0]); fl == rowEC && b == ssa.Value(fn.Params[0]) && cc.Args[1] == ssa.Value(fn.Params[1]) {
+				recvOK := true
+				for _, rv := range phiClosure(cc.Args[0]) {
+					if fl, b := loadedField(rv); fl == rowEC && b == ssa.Value(fn.Params[0]) {
+						continue
+					}
+					if call, isCall := rv.(*ssa.Call); isCall && call.Call.StaticCallee() != nil && call.Call.StaticCallee().Name() == "NewErrorContainer" {
+						continue
+					}
+					recvOK = false
+				}
+				if recvOK && cc.Args[1] == ssa.Value(fn.Params[1]) {
 					for _, ret := range returnsOf(fn) {
 						if instrDominates(in, ret) {
 							records = true
@@ -498,5 +503,79 @@ func scanProvesNoNil(p *prover, el ssa.Value, at ssa.Instruction) (bool, string)
 			return true, "reached only by leaving a range loop over the list in which every element was seen non-nil"
 		}
 	}
+	// alternative: guarded by a predicate function that reports whether the list contains a nil entry
+	for _, cf := range dominatingConds(at.Block()) {
+		call, ok := cf.Cond.(*ssa.Call)
+		if !ok || cf.Val {
+			continue
+		}
+		f := call.Call.StaticCallee()
+		if f == nil || !inModule(f) || len(call.Call.Args) != 1 || p.canon(call.Call.Args[0]) != p.canon(el) {
+			continue
+		}
+		if containsNilPredicate(p.ix, f) {
+			return true, "reached only when " + FuncName(f) + " (true exactly when some entry is nil) said no"
+		}
+	}
 	return false, "no scan loop over the appended list guards this append: nil entries would be copied in"
+}
+
+// containsNilPredicate: f(list) returns true on finding a nil entry in a loop over the whole list and false otherwise.
+func containsNilPredicate(ix *idxEngine, f *ssa.Function) bool {
+	if len(f.Params) != 1 || f.Signature.Results().Len() != 1 {
+		return false
+	}
+	p := ix.proverFor(f)
+	el := f.Params[0]
+	sawTrue, sawFalse := false, false
+	for _, ret := range returnsOf(f) {
+		k, isC := constBool(results(ret)[0])
+		if !isC {
+			return false
+		}
+		if k {
+			// under el[i] == nil
+			okc := false
+			for _, cf := range dominatingConds(ret.Block()) {
+				e, nn, isT := nilTest(cf.Cond)
+				if !isT || (nn == 1) != cf.Val {
+					continue
+				}
+				if sl, _ := sectionOfAny(e); sl == ssa.Value(el) {
+					okc = true
+				}
+				if ex, isEx := e.(*ssa.Extract); isEx {
+					if nx, isNx := ex.Tuple.(*ssa.Next); isNx {
+						if rg, isRg := nx.Iter.(*ssa.Range); isRg && rg.X == ssa.Value(el) {
+							okc = true
+						}
+					}
+				}
+			}
+			if !okc {
+				return false
+			}
+			sawTrue = true
+		} else {
+			// after the loop over the whole list: dominated by the exit edge of a loop with test idx < len(el)
+			okc := false
+			for _, cf := range dominatingConds(ret.Block()) {
+				if cf.Val {
+					continue
+				}
+				for _, cs := range p.condConstraints(cf.Cond, true) {
+					for t := range cs.e.coef {
+						if t == "len("+p.canon(el)+")" {
+							okc = true
+						}
+					}
+				}
+			}
+			if !okc {
+				return false
+			}
+			sawFalse = true
+		}
+	}
+	return sawTrue && sawFalse
 }
